@@ -111,6 +111,13 @@ func render(n *Node) string {
 		return "defer p(" + id + ")"
 	case "defer-arg":
 		return "x" + id + " = " + strconv.Itoa(n.Val) + "\ndefer pv(" + id + ", x" + id + ")\nx" + id + " = " + strconv.Itoa(n.Val+1)
+	case "defer-callarg":
+		// the argument of the deferred call is itself a call (or an expression) that can fail: a defer
+		// statement that fails registers nothing
+		if n.N%2 == 1 {
+			return "defer pv(" + id + ", [1, 2][5])"
+		}
+		return "defer pv(" + id + ", p(" + strconv.Itoa(n.Val) + "))"
 	case "defer-anon":
 		return "defer func() {\n" + renderList(n.Body) + "\n}()"
 	case "defer-named":
@@ -537,6 +544,20 @@ func (m *model) exec(n *Node, fr *frame) sig {
 		return sig{kind: 3 + n.N%2} // turned into an error where the invocation ends (call)
 	case "module", "switch":
 		return m.list(n.Body, fr)
+	case "defer-callarg":
+		if n.N%2 == 1 {
+			return sig{kind: 1, msg: anyMsg}
+		}
+		before := m.calls
+		if s := m.host("p:" + strconv.Itoa(n.Val)); s.kind != 0 {
+			return s
+		}
+		arg := "<nil>"
+		if m.faults[before+1] == "error-result" {
+			arg = "returned error value"
+		}
+		fr.defers = append(fr.defers, func() sig { return m.host("v:" + id + ":" + arg) })
+		return sig{}
 	case "ifchain":
 		// a probe returns nil unless the injected fault makes it return an error value (then the arm is taken)
 		before := m.calls
@@ -763,6 +784,8 @@ func (g *gen) stmt(c gctx) *Node {
 				n.Finally = g.stmts(fc, 3)
 			}
 			return n
+		case k == 8 && g.r.Intn(4) == 0:
+			return &Node{K: "defer-callarg", ID: id, N: g.r.Intn(2), Val: g.id()}
 		case k == 8:
 			return &Node{K: "defer-probe", ID: id}
 		case k == 9 && g.r.Intn(3) == 0:
